@@ -58,9 +58,15 @@ func c09Gen(rt *rapid.T) c09Case {
 		op := c09Op{Kind: rapid.SampledFrom([]int{0, 0, 0, 0, 1, 1, 2, 3, 3}).Draw(rt, lbl+"kind"), Node: rapid.IntRange(0, 40).Draw(rt, lbl+"node")}
 		op.DT = rapid.SampledFrom([]int64{0, 0, 500, 1000, 1000, 2000, c.Window, c.Window + 1000, 2*c.Window + 3000}).Draw(rt, lbl+"dt")
 		np := rapid.IntRange(0, 4).Draw(rt, lbl+"npicks")
+		reuseOdds := 2
+		if op.Kind == 3 {
+			// builder-style queries: larger batches, mostly txs that may already be on the chain
+			np = rapid.IntRange(1, 7).Draw(rt, lbl+"nqpicks")
+			reuseOdds = 6
+		}
 		for j := 0; j < np; j++ {
 			p := -1
-			if rapid.IntRange(0, 2).Draw(rt, fmt.Sprintf("%sreuse%d", lbl, j)) != 0 {
+			if rapid.IntRange(0, reuseOdds).Draw(rt, fmt.Sprintf("%sreuse%d", lbl, j)) != 0 {
 				p = rapid.IntRange(0, 12).Draw(rt, fmt.Sprintf("%spick%d", lbl, j))
 			}
 			op.Picks = append(op.Picks, p)
